@@ -55,6 +55,8 @@ func GetUsedImports(imports map[string]*Import) map[string]*Import {
 type MetaData struct {
 	Imports map[string]*Import
 	Package Package
+	// BuildConstraint is the //go:build line of the source file ("" when it has none).
+	BuildConstraint string
 }
 
 // ProviderType represents the type of provider.
